@@ -248,6 +248,8 @@ class Exec:
 
     def where(self, node):
         f = self.cur_func
+        if f is None and self.top is not None and getattr(self.top, "is_lemma", False):
+            return "lemma:" + self.top.key
         if node is not None and hasattr(node, "lineno") and f is not None:
             return "%s:%d" % (f.module.relpath, node.lineno)
         return f.key if f is not None else "?"
